@@ -132,6 +132,18 @@ pub fn run(ctx: &Ctx) -> i32 {
         std::fs::create_dir_all(format!("{}/sub", tree)).unwrap();
         std::fs::write(format!("{}/proj/README.md", base), b"readme\n").unwrap();
         let cwd_kind = k % 4;
+        // files of the analysed tree that merely look like a report: they belong to the tree and must stay as they are
+        if rng.chance(1, 3) {
+            if cwd_kind != 1 {
+                std::fs::write(format!("{}/solstat_report.md", tree), "# Gas Optimizations - (Total Optimizations 3)\n- Kept.sol:1\n").unwrap();
+                acc.cov("tree-holds:solstat_report.md-at-its-root");
+            }
+            if cwd_kind != 2 {
+                std::fs::write(format!("{}/sub/solstat_report.md", tree), "left by an earlier run started here\n").unwrap();
+                acc.cov("tree-holds:solstat_report.md-below");
+            }
+            std::fs::write(format!("{}/notes.md", tree), "notes\n").unwrap();
+        }
         let (cwd, path_args): (String, Vec<String>) = match cwd_kind {
             0 => {
                 std::fs::create_dir_all(format!("{}/elsewhere", base)).unwrap();
@@ -263,11 +275,23 @@ pub fn run(ctx: &Ctx) -> i32 {
                 args.push(format!("{}/bad.toml", base));
             }
             // reference: same tree from a fresh empty directory
+            // (that run is a run like any other: it, too, must leave everything below the base directory as it was)
+            let mut before_reference: Snap = Snap::new();
+            snapshot(&base, "", &mut before_reference);
             let clean = scratch_dir("c18clean");
             let reference = run_solstat(&clean, &["--path", &tree]).ok().and_then(|o| if o.code == Some(0) { o.report } else { None });
             let _ = std::fs::remove_dir_all(&clean);
             let mut before: Snap = Snap::new();
             snapshot(&base, "", &mut before);
+            if before != before_reference {
+                let changed: Vec<&String> = before_reference.iter().filter(|(p, v)| before.get(*p) != Some(*v)).map(|(p, _)| p).chain(before.keys().filter(|p| !before_reference.contains_key(*p))).take(5).collect();
+                let cls = changed.first().map(|p| path_class(p)).unwrap_or("other-path");
+                let removed = changed.first().map(|p| !before.contains_key(*p)).unwrap_or(false);
+                acc.violation(
+                    format!("tree-modified:{}:{}", if removed { "removed" } else { "changed" }, cls),
+                    json!({"cwd": "a fresh empty directory outside the tree", "argv": ["--path", tree.strip_prefix(&base).unwrap_or(&tree)], "step": step, "tree": to_json(&ents), "paths": changed}),
+                );
+            }
             let prev_report = std::fs::read(&report_path).ok();
             let use_strace = strace && (k + step as u64) % strace_every == 0;
             let log = format!("{}-trace-{}.log", base, step);
